@@ -111,7 +111,7 @@ def run(ctx):
     hs = hs + long_hs
     jobs = []
     for k, h in enumerate(hs):
-        if thorough:
+        if thorough and k % 4 == 0:
             pairs = [SOURCE_PAIRS[k % len(SOURCE_PAIRS)], SOURCE_PAIRS[(k + 3) % len(SOURCE_PAIRS)]]
         else:
             pairs = [SOURCE_PAIRS[k % len(SOURCE_PAIRS)]]
